@@ -7,7 +7,7 @@ import re
 from harness import core
 
 GEN = ['gen_tables', 'gen_regex', 'gen_config', 'gen_core']
-THEOREMS = ['C06_nested_emphasis', 'C06_nested_pairs', 'C06_nested_emphasis_instance', 'C06_emphasis_phrases', 'C06_sequential_pairs', 'C06_emphasis_phrases_hypotheses', 'C06_emphasis_sound', 'C06_process_emphasis_sound', 'C06_emphasis_sound_hypotheses', 'C06_flanking_is_the_source', 'C06_simple_emphasis', 'C06_simple_emphasis_hypotheses', 'C06_emphasis_in_sentence', 'C06_emphasis_in_sentence_hypotheses', 'C06_tables', 'C06_flanking', 'C06_closed_by', 'C06_bounded_alpha5_7', 'C06_bounded_star_under_12']
+THEOREMS = ['C06_emphasis_above_a_bracket', 'C06_link_with_emphasis', 'C06_nested_emphasis', 'C06_nested_pairs', 'C06_nested_emphasis_instance', 'C06_emphasis_phrases', 'C06_sequential_pairs', 'C06_emphasis_phrases_hypotheses', 'C06_emphasis_sound', 'C06_process_emphasis_sound', 'C06_emphasis_sound_hypotheses', 'C06_flanking_is_the_source', 'C06_simple_emphasis', 'C06_simple_emphasis_hypotheses', 'C06_emphasis_in_sentence', 'C06_emphasis_in_sentence_hypotheses', 'C06_tables', 'C06_flanking', 'C06_closed_by', 'C06_bounded_alpha5_7', 'C06_bounded_star_under_12']
 TRUSTED = ['Spec/Delims.v: the CommonMark 0.30 delimiter algorithm written from the specification appendix (the yardstick)',
            'the model of core_tokens.py / span_tokenizer.py (tied by X-doc and X-inline)',
            'vm_compute for the kernel sweeps (33 shard files)']
